@@ -36,8 +36,7 @@ def tooBig (opt : Bool) (st : Mml.MmlState) : Option String :=
 def unmodelled : Residual :=
   { vgmPlay := fun _ _ => .foreign "UNMODELLED:vgm-play-loop",
     link := fun _ => .foreign "UNMODELLED:linker",
-    mdsGap := fun _ => .foreign "UNMODELLED:definition-or-platform-command-outside-the-model",
-    endEvent := fun _ => .foreign "UNMODELLED:explicit-end-event" }
+    mdsGap := fun _ => .foreign "UNMODELLED:definition-or-platform-command-outside-the-model" }
 
 def stageName : Stage → String
   | .parse => "parse" | .validate => "validate" | .optimize => "optimize" | .export => "export" | .link => "link"
